@@ -121,6 +121,12 @@
 //!
 //! [MDC]: https://crates.io/crates/log-mdc
 
+// verification hook: with the feature `verif_hooks`, `Utc::now()` and `Local::now()` in this module
+// (the date formatter of `FormattedChunk::encode`, the construction-time trial rendering) read the
+// clock override of `verif_hooks::set_now` when one is installed, the real clock otherwise
+#[cfg(feature = "verif_hooks")]
+use self::verif_clock::{Local, Utc};
+#[cfg(not(feature = "verif_hooks"))]
 use chrono::{Local, Utc};
 use derivative::Derivative;
 use log::{Level, Record};
@@ -748,6 +754,31 @@ impl Deserialize for PatternEncoderDeserializer {
             None => PatternEncoder::default(),
         };
         Ok(Box::new(encoder))
+    }
+}
+
+/// Verification hook: stand-ins for `chrono::{Utc, Local}` whose `now()` reads the clock override
+/// of `verif_hooks::set_now` when one is installed and the real clock otherwise.
+#[cfg(feature = "verif_hooks")]
+mod verif_clock {
+    use chrono::DateTime;
+
+    pub struct Utc;
+    pub struct Local;
+
+    impl Utc {
+        pub fn now() -> DateTime<chrono::Utc> {
+            crate::verif_hooks::now_override_utc().unwrap_or_else(chrono::Utc::now)
+        }
+    }
+
+    impl Local {
+        pub fn now() -> DateTime<chrono::Local> {
+            match crate::verif_hooks::now_override_utc() {
+                Some(t) => t.with_timezone(&chrono::Local),
+                None => chrono::Local::now(),
+            }
+        }
     }
 }
 
